@@ -16,8 +16,10 @@ Driver of C19. Payload (space separated):
 * values: `z` nil, `b:0|1`, `n:<float64 bits|nan>`, `g:<bits>` float32 (as float64 bits),
   `i:<kind>:<decimal>`, `s:<hex>`, `l[…]`, `m{…}`, `N<n>(<value>)` (a value of a defined type), `f` (an ECAL function object), `e` (the
   harness's error value). An argument number carries the platform's conversion to the
-  parameter's integer kind as `n:<bits>:<decimal>` (`-` if the parameter is not of integer kind);
-  the model uses it only when the truncated value is outside the kind's range.
+  parameter's integer kind as `n:<bits>:<decimal>` (`-` if the parameter is not of integer kind),
+  followed by `!` when the value is outside the kind's range: Go leaves that conversion
+  implementation-defined, so for such a case only the outcome class is compared — returned and
+  received values are printed as `~` on both sides.
 
 Result: `V <value> recv=[…]` | `E f recv=[…]` (the function's own error) | `E b recv=…` (an error
 made by the bridge; `recv=-`: function not reached) | `X` (escaped panic). Modes I/T: `V <value> …`,
@@ -126,6 +128,7 @@ partial def parseVal (s : String) : Option (Val × Option Int) :=
     do let k ← parseKind k; let n ← n.toInt?; pure (.int k n, none)
   | 'n' :: ':' :: r =>
     let (b, o) := splitFirst (String.ofList r) ':'
+    let o := String.ofList (o.toList.filter (· != '!'))
     do let x ← parseNumBits b; pure (.f64 x, o.toInt?)
   | _ => none
 
@@ -171,11 +174,10 @@ def mkBody (sig : Sig) (b : String) : Option (List Val → BodyOut) :=
   else none
 
 /-- The model runs with the shape of `Run` that the proof requires (`Props.C19.shape_recovers` checks
-    that the regenerated `Gen.C19.runShape` has it): if the source loses its recover, the run shows a
+    that the regenerated facts do not refute it): if the source loses its recover, the run shows a
     concrete crashing input instead of agreeing with the broken code. -/
 def requiredShape : Shape :=
-  { errIsNamedResult := true, firstStmtIsDefer := true, closureCallsRecover := true, closureAssignsErr := true,
-    arityChecked := true }
+  { recovers := true, arityChecked := true }
 
 def runCase (payload : String) : String :=
   match payload.splitOn " " with
@@ -183,6 +185,18 @@ def runCase (payload : String) : String :=
     match parseSig sigS, argS.mapM parseVal with
     | some sig, some argsO =>
       let args := argsO.map (·.1)
+      -- `!` on an argument = the harness says its conversion is out of the parameter kind's range;
+      -- the model decides the same question itself (`IntKind.inRange` of the truncation) and must agree
+      let marked := argS.map (·.endsWith "!")
+      let rec kindTy : Ty → Ty
+        | .named _ u => kindTy u
+        | t => t
+      let modelOob := (args.zip (sig.params.map (fun t => some (kindTy t)) ++ List.replicate args.length none)).map fun (v, p) =>
+        match v, p with
+        | .f64 x, some (.int k) => (match x.trunc with | some n => !k.inRange n | none => true)
+        | _, _ => false
+      if marked != modelOob then "RANGE-MARKER-MISMATCH" else
+      let masked := marked.any id
       -- the platform's out-of-range conversions, keyed by (kind, number)
       let table : List (IntKind × Num × Int) := (argsO.zip sig.params).filterMap fun ((v, o), p) =>
         match v, o, p with
@@ -199,7 +213,9 @@ def runCase (payload : String) : String :=
       | some tgt =>
         let out := run requiredShape oob tgt args
         let reached := if bodyS = "notfunc" then none else reaches oob sig args
-        let recv := if bodyS = "opaque" && reached.isSome then "recv=?" else showRecv reached
+        let recv := if bodyS = "opaque" && reached.isSome then "recv=?"
+          else if masked && reached.isSome then "recv=~" else showRecv reached
+        let showRet := fun (r : Ret) => if masked then "~" else showRet r
         let nt := if reached.isSome then "\tnt=1" else ""
         let opaqueV := bodyS = "opaque"
         let res :=
